@@ -182,7 +182,11 @@ def main():
     mod = registry.get(pid)
     if a.replay:
         data = json.load(open(a.replay))
-        v = mod.replay(data)
+        if data.get("kind") == "function":      # function-level replay (local statement on a recorded input)
+            import local_checks
+            v = local_checks.replay(pid, data.get("violation", {}))
+        else:
+            v = mod.replay(data)
         if v:
             print("VIOLATION property=%s replay=%s" % (pid, a.replay))
             sys.exit(1)
@@ -228,6 +232,16 @@ def main():
     viols = mon.get("violations", [])
     broken_suites = [s_["suite"] for s_ in suites if s_.get("disagree", 0) or s_.get("error")]
     directed_cov = None
+    local_cov = None
+    if broken_suites and not [v for v in viols if not any(fnmatch.fnmatch(v["key"], k["key"]) for k in known)]:
+        # step 1 of the directed search: the property's local statement on the implementation's own outputs at the disagreeing inputs
+        try:
+            import local_checks
+            lc = local_checks.evaluate(pid, suites)
+            viols = viols + lc["violations"]
+            local_cov = lc["coverage"]
+        except Exception as e:
+            local_cov = {"error": repr(e)[:300]}
     if broken_suites and hasattr(mod, "directed") and not [v for v in viols if not any(fnmatch.fnmatch(v["key"], k["key"]) for k in known)]:
         try:
             dm = mod.directed(ctx, broken_suites)
@@ -279,7 +293,7 @@ def main():
         "theorems": pf.get("theorems", []), "generated_obligations": extra_obl,
         "axioms_reported_by_Print_Assumptions": pf.get("axioms", []),
         "theorems_closed_under_global_context": pf.get("closed_count", 0),
-        "correspondence": [{k: v for k, v in s.items() if k not in ("mismatches",)} for s in suites],
+        "correspondence": [{k: v for k, v in s.items() if k not in ("mismatches", "mismatches_all")} for s in suites],
         "correspondence_disagreements": sum(s.get("disagree", 0) for s in suites),
         "monitor": mon.get("coverage", {}),
         "evaluations": int(sum(s.get("cases", 0) for s in suites) + mon.get("coverage", {}).get("evaluations", 0)),
@@ -289,6 +303,7 @@ def main():
         "no_longer_checks": broken,
         "coqchk": chk,
         "directed_search_after_broken_correspondence": directed_cov,
+        "local_statement_on_disagreeing_inputs": local_cov,
         "known_findings_reproduced": [k for k in reproduced],
         "build": {k: v for k, v in b.items() if k != "log"},
     }
